@@ -50,6 +50,29 @@ checks.update({
  "C18": ("history monitor over SetTimeRange call sequences observed through ConditionExpr with the reference point-evaluator", "3.C18",
          "Initial conditions with time bounds on either side / any case / now()-relative, top-level OR, none; 1-8 windows (CQ-style, random, repeated, empty, sub-second, extremes); exact range, exactly two time comparisons, constant node count, point agreement after every call.", "observation through ConditionExpr as the property prescribes"),
 })
+# what the later rounds of seeded changes added to each check (DESIGN.md section 9)
+STATE = {
+ "C01": " Also: comments in the random layout, multi-statement queries, customised Language clones, texts of up to 120000 elements, same-checksum pairs of regexes / names / strings, a probe process that assigns time.Local between two parses of tz('Local').",
+ "C02": " Also: about 900 frontier texts judged if accepted, look-alike name pairs printed in both orders, prints directly after a 70 KB - 1.4 MB print.",
+ "C03": " Also: chains of up to 260 operators and deep left spines, caller edits of sign factors before the run, a parser reused after 300000 failed expressions, print / edit in place / print again, a print directly after an aborted print.",
+ "C04": " Also: bytes allocated for a text of n against 4n bytes (21 families), long histories of distinct zones / regexes / names, 70000 statements through one parser, results staying usable under later calls on the same parser.",
+ "C05": " Also: readers that deliver the text in pieces, with EOF, or followed by a persistent error; error positions behind characters outside the language through both entry points; errors after another parse against a parser made for the text alone.",
+ "C06": " Also: look-alike and same-checksum name pairs in both orders, values of up to 2 MB, the caller's slice spread into QuoteIdent, a reader that fails transiently inside the quoted value, hand-built statements with one node as target and source.",
+ "C07": " Also: SetParams twice / with nil, one parser reading the template several times with bindings replaced in between (also after an end of input, and before each of nine expression lines), the caller overwriting its map after SetParams.",
+ "C08": " Also: 25 statement slots incl. zero and INF, signed literals, one parser reading a spelling five times going on after errors, similar long spellings in sequence, the caller overwriting every duration of a parsed statement.",
+ "C09": " Also: stacked valuers and pure functions, casts on bound references, far instants, ns counts as durations, the clock carried in a location, same-checksum timestamp pairs.",
+ "C10": " Also: wall-clock literals next to offset changes in six zones, stacked and zone-less valuers, time literals a caller converted and changed beforehand, hand-built ranges through TimeRange.Intersect.",
+ "C11": " Also: multi-predicate conditions, whole sources with anchors inside alternations, UTF-8 width boundaries, limit sums, the caller editing the literals of a rewritten condition.",
+ "C12": " Also: arithmetic subquery columns incl. unsigned, mappers that hand out cached maps, names and regexes whose joined texts coincide, in both orders.",
+ "C13": " Also: random operation sequences, 1800 distinct-value statements in one process, a stream read by one parser that carries on after errors.",
+ "C14": " Also: operations before the clone, interleaved schedules with each side compared to its own operations run alone, emptied lists with capacity, hand-built INTO targets, derived statements of receivers that were asked before, a probe process that clones TZ('Local') before local time was used.",
+ "C15": " Also: blank-like separators, split literals, bound user names, look-alike keyword letters, clause words inside quoted names / strings / regexes / comments (four open findings), same-checksum text and literal pairs, a print after a rejected mistyped variant.",
+ "C16": " Also: 33 comment shapes, CR / LF combinations read in pieces, queries of up to 35001 statements, a zone spelled in two letter cases in one query.",
+ "C17": " Also: fresh processes whose first library calls are made by 24 goroutines at once, hand-built INTO targets in shared ASTs, results of ScanDelimited kept across later scans.",
+ "C18": " Also: windows carried in locations whose offsets have seconds, edits between windows, own-output-shaped conditions with inner bounds, an ordinary call directly after a refused one, same-checksum condition pairs.",
+ "C19": " Also: INTO at every depth, in-place edits between calls, the caller overwriting the returned list, 1-1000 sources, reserved system names, a call while a source slot is nil followed by the repaired statement.",
+ "C20": " Also: lists of 60-140 fields, renames and flag flips in place, blank time aliases, statements built with shared nodes, statements expanded by RewriteFields and edited afterwards, a call directly after an aborted call.",
+}
 pending = {}
 order = ["C%02d"%i for i in range(1,21)]
 extra = json.load(open('/verif/tools/manifest_extra.json')) if os.path.exists('/verif/tools/manifest_extra.json') else {}
@@ -71,7 +94,7 @@ for p in order:
         tech, ref, text, note = checks[p]
         m["checks"].append({"property_id": p, "quick_cmd": "./check %s quick"%p, "thorough_cmd": "./check %s thorough"%p, "evidence_file": "evidence/%s.json"%p,
             "replay_cmd_template": "./check %s --replay {path}"%p, "engine": "vcheck",
-            "level_claimed": {"category": "exploration", "text": text, "design_ref": "DESIGN.md section "+ref}, "level_note": note, "technique": tech})
+            "level_claimed": {"category": "exploration", "text": text + STATE.get(p, ""), "design_ref": "DESIGN.md section "+ref}, "level_note": note, "technique": tech})
     else:
         m["not_applicable"].append({"property_id": p, "reason": na.get(p, "monitor for this property is designed in DESIGN.md but not yet built and calibrated in this round; not claimed until it is")})
 json.dump(m, open('/verif/MANIFEST.json','w'), indent=1)
